@@ -69,13 +69,13 @@ PairTypes ==
     {TVoid, TIntS, Const(TIntS), TInt("long", TRUE), TChar("uchar"), TBool, TFloat("double"), TEnum("ES"), TEnum("EU"), TNull,
      Ptr(TIntS), Ptr(Const(TIntS)), Ptr(TVoid), LRef(TIntS), LRef(Const(TIntS)), RRef(TIntS), Arr(3, TIntS), F_v, Ptr(F_v),
      TClass("Base0"), TClass("Derived"), Ptr(TClass("Base0")), Ptr(TClass("Derived")), LRef(TClass("Base0")),
-     LRef(Const(TClass("Derived")))}
+     LRef(Const(TClass("Derived"))), TClass("PrivD"), LRef(TClass("CcNc"))}
     \cup (IF Thorough THEN
             {Const(TVoid), TInt("short", FALSE), TChar("char"), TChar("char32"), TFloat("float"), TEnum("EUc"), Volatile(TIntS),
              Ptr(CV(TVoid)), Const(Ptr(TIntS)), Ptr(Ptr(TIntS)), RRef(Const(TIntS)), LRef(Volatile(TIntS)), Arr(0, TIntS),
              Arr(3, Const(TIntS)), LRef(Arr(3, TIntS)), LRef(F_v), Ptr(Fn(TVoid, <<>>, FALSE, FALSE, "none", TRUE)),
              Fn(TVoid, <<>>, TRUE, FALSE, "none", FALSE), MemPtr("Base0", TIntS), MemPtr("Derived", TIntS),
-             TClass("PrivD"), TClass("Triv"), TClass("Abstract"), TClass("Impl"), TClass("Un"), TClass("MoveOnly"),
+             TClass("CcNc"), TClass("CaNc"), LRef(Const(TClass("CcNc"))), LRef(TClass("CaNc")), TClass("Triv"), TClass("Abstract"), TClass("Impl"), TClass("Un"), TClass("MoveOnly"),
              TClass("CcTh"), TClass("DtTh"), TClass("DtProt"), Const(TClass("Base0")), RRef(TClass("Derived")), RRef(TClass("Base0")),
              LRef(TClass("MoveOnly")), RRef(TClass("MoveOnly")), LRef(Const(TClass("CcTh"))), Ptr(TClass("PrivD")),
              Ptr(Const(TClass("Derived"))), LRef(TClass("Impl")), LRef(TClass("Abstract")), TClass("CopyOnly"), RRef(TClass("CopyOnly")),
